@@ -7,6 +7,7 @@ the value through both paths SQL uses (cast from a string literal; CSV field par
 SQL leg: single-column tables on both engines; ORDER BY, the < operator, join equality, GROUP BY,
 DISTINCT and MIN/MAX must all induce the same relations on the stored values, and the storage
 sort order (memory vs disk) must be the same sequence."""
+import os
 import json
 import random
 import subprocess
@@ -155,6 +156,10 @@ def run(tier, seed):
     rep.floor("SQL coherence cases", len(cases), nsql // 2)
     rep.assumptions = ["calendar values are drawn from ranges reachable through SQL literals (timestamps in whole seconds)",
                        "cells are compared as printed; decimals are normalised by value and -0.0 is identified with 0.0, as the engine's equality does"]
+    if tier == "thorough" and not os.environ.get("VERIF_OVERLAY"):
+        import sanitize
+        sanitize.overlay(rep, "asan", timeout=5400)
+        sanitize.miri(rep, [["values", seed, 0]], timeout=3000)
     return rep.finish()
 
 
